@@ -250,10 +250,23 @@ def run(ctx, rep):
     fb = anchor(F, rep, "C09.minmax", "encode::encode_frame")
     if fb is not None:
         n = 0
-        for bi, t in fb.calls():
+        def minmax_kind(t):
             nm = callee_name(t)
             m = re.search(r"::(min|max)$", nm)
-            if not m or "Ord" not in nm and "cmp" not in nm:
+            if m and ("Ord" in nm or "cmp" in nm):
+                return m
+            # a combinator whose closure computes the min/max (opt.map_or(size, |m| size.min(m))): its result is that min/max
+            ms = []
+            for cl in t.get("cls") or ():
+                cbb = F.body(cl)
+                for _, t2 in (cbb.calls() if cbb is not None else ()):
+                    m2 = re.search(r"::(min|max)$", callee_name(t2))
+                    if m2 and ("Ord" in callee_name(t2) or "cmp" in callee_name(t2)):
+                        ms.append(m2)
+            return ms[0] if len(ms) == 1 else None
+        for bi, t in fb.calls():
+            m = minmax_kind(t)
+            if not m:
                 continue
             # where does the result go?
             dest = t["d"]
@@ -295,7 +308,7 @@ def run(ctx, rep):
     iolib.count_rules(ctx, rep, "C09")
     C15.declared_total_rules(F, rep, "C09")
     from rules import castlib
-    rep.floor("C09.cast", "narrowing casts inspected", castlib.cast_audit(ctx, rep, "C09", ['encode.rs', 'lib.rs']), 10)
+    rep.floor("C09.cast", "narrowing casts inspected", castlib.cast_audit(ctx, rep, "C09", ['encode.rs', 'lib.rs']), 4)
 
 
 def _deep(body, o, depth=6):
